@@ -224,6 +224,7 @@ struct Shm {
     int race_oracle;
     int no_cache;
     int replay_mode;
+    int spurious;  // explore spurious compare_exchange_weak failures and spurious condition-variable wake-ups (1 deviation each)
     // stats
     volatile uint64_t executions, transitions, states, pruned, cache_hits, completed, deadlocks;
     volatile uint64_t max_points;
